@@ -403,12 +403,39 @@ theorem errors_fixed_conservative (i : ErrIn) (h : (errorsPinned i).valid = true
   split_ifs at h ⊢ <;>
     simp_all [ErrOut.valid, Out.valid, sanitise_of_valid, isPos_sanitise]
 
-/-- priorized copy-back keeps validity when the input catalogue's uncertainties are valid -/
+/-- **copy_back_valid**: priorized copy-back keeps validity under the hypothesis the proof forces — the
+    input catalogue row's own uncertainties are valid.  (The copied uncertainties are not fit products:
+    that they equal the input's is C05's clause; a row whose own err_* are NaN comes back with NaN.) -/
 theorem copy_back_valid (stage : Nat) (fit inp : ErrOut) (hf : fit.valid = true) (hi : inp.valid = true) :
     (copyBack stage fit inp).valid = true := by
   unfold copyBack
   simp only [ErrOut.valid, Bool.and_eq_true] at hf hi ⊢
   split_ifs <;> simp_all
+
+/-- what the stage FITS stays valid whatever the input row holds: the peak flux and integrated flux
+    always, the position from stage 2 on, the shape at stage 3 -/
+theorem copy_back_fitted_valid (stage : Nat) (fit inp : ErrOut) (hf : fit.valid = true) :
+    (copyBack stage fit inp).peak.valid = true ∧ (copyBack stage fit inp).int.valid = true ∧
+    (2 ≤ stage → (copyBack stage fit inp).ra.valid = true ∧ (copyBack stage fit inp).dec.valid = true) ∧
+    (3 ≤ stage → (copyBack stage fit inp).a.valid = true ∧ (copyBack stage fit inp).b.valid = true ∧
+      (copyBack stage fit inp).pa.valid = true) := by
+  simp only [ErrOut.valid, Bool.and_eq_true] at hf
+  unfold copyBack
+  refine ⟨?_, ?_, ?_, ?_⟩
+  · split_ifs <;> simp_all
+  · split_ifs <;> simp_all
+  · intro h; split_ifs <;> first | omega | simp_all
+  · intro h; split_ifs <;> first | omega | simp_all
+
+/-- what the stage does not fit comes back as the input row had it -/
+theorem copy_back_copies (stage : Nat) (fit inp : ErrOut) :
+    (stage < 2 → (copyBack stage fit inp).ra = inp.ra ∧ (copyBack stage fit inp).dec = inp.dec) ∧
+    (stage < 3 → (copyBack stage fit inp).a = inp.a ∧ (copyBack stage fit inp).b = inp.b ∧
+      (copyBack stage fit inp).pa = inp.pa) := by
+  unfold copyBack
+  refine ⟨?_, ?_⟩
+  · intro h; split_ifs <;> first | omega | simp_all
+  · intro h; split_ifs <;> first | omega | simp_all
 
 /-! ### 5. Island summary -/
 
